@@ -168,7 +168,8 @@ TExecAborted == /\ Ev.e = "ExecAborted" /\ xst' = [xst EXCEPT ![Ev.x] = "aborted
 \* refuses it with an exception and the payload is never started
 TExecRefused == /\ Ev.e = "ExecRefused" /\ xst' = [xst EXCEPT ![Ev.x] = "returned"]
                 /\ UNCHANGED <<phase, guard, pst, starts, endhow, cleanleft, adoptret, sigint, shut, result, h, where, xobs, segopen, marks>>
-                /\ nc' = (nc \/ xst[Ev.x] # "called")
+                \* (or, why = "down": the runtime is terminating / has ended and has no runner left)
+                /\ nc' = (nc \/ xst[Ev.x] # "called" \/ (Ev.why = "down" /\ ~Triggered /\ phase[1] # "ended"))
 \* the service loop of the runtime has left (it noticed the shutdown flag, or was cancelled)
 TSvcLoopExit == /\ Ev.e = "SvcLoopExit"
                 /\ marks' = [marks EXCEPT !.loopexited = TRUE]
